@@ -58,6 +58,15 @@ def weakOk (hosts : List Host) (policy : Nat) (dflt : Path) (c : Path) (obs : St
     ch == "-" || (ch.splitOn "+").all (allowed.contains ·)
   | _ => false
 
+/-- inner policies other than round-robin (all hosts healthy): the observed hosts must be among the model's targets,
+some host must be observed iff the model has a target, and `HostNum`/`IsExistsHosts` must be equal -/
+def innerOk (want obs : String) : Bool :=
+  match want.splitOn ":", obs.splitOn ":" with
+  | [wc, wn, we], [oc, on, oe] =>
+    wn == on && we == oe && ((oc == "-") == (wc == "-")) &&
+      (oc == "-" || (oc.splitOn "+").all ((wc.splitOn "+").contains ·))
+  | _, _ => false
+
 def stripTag (tag : String) (s : String) : Option String :=
   if s.startsWith tag then some (s.drop tag.length).toString else none
 
@@ -70,11 +79,15 @@ def run (caseToks impl : List String) : String :=
       let keys := generateSubsetKeys raw
       let mf := observe (newFilter hs policy d keys) hs.length q
       let mp := observe (newPre id hs policy d keys) hs.length q
-      let agree := fObs == mf && pObs == mp
+      let innerKind := kind.startsWith "in."
+      let agree := if innerKind then innerOk mf fObs && innerOk mp pObs else fObs == mf && pObs == mp
       -- kind q: criteria built by the real router code from a map (the expectation reads them as a set of pairs)
       let wellFormed := kind == "q"
       let spec :=
-        if wellFormed then
+        if innerKind then
+          let e := expect hs raw policy d q
+          innerOk e fObs && innerOk e pObs
+        else if wellFormed then
           let e := expect hs raw policy d q
           fObs == e && pObs == e
         else match q with
